@@ -58,6 +58,7 @@ REQUIRED = [
     "mode:standard",
     "mode:nonstandard",
     "client_builds_default_context",
+    "highlevel_server_close_checked",
 ]
 EXHAUSTIVE = {"quick": False, "thorough": True}
 WATCHDOG = {"quick": 900, "thorough": 7200}
@@ -568,6 +569,70 @@ def async_client_session(version: str, std: bool, k: int | None) -> dict:
     return obs
 
 
+def highlevel_server_close(version: str, mode: str) -> dict:
+    """'closing the transport sends a close notification' at the level where users meet it: an AsyncTCPNetworkServer whose handler
+    closes the client; mode 'default' leaves ssl_standard_compatible unset (documented default: standard-compatible)"""
+    import logging
+
+    from easynetwork.lowlevel.socket import TLSAttribute
+    from easynetwork.protocol import StreamProtocol
+    from easynetwork.serializers import StringLineSerializer
+    from easynetwork.servers.async_tcp import AsyncTCPNetworkServer
+    from easynetwork.servers.handlers import AsyncStreamRequestHandler
+
+    obs: dict[str, Any] = {}
+
+    class H(AsyncStreamRequestHandler):
+        async def handle(self, client):
+            req = yield
+            try:
+                obs["handler_mode"] = client.extra(TLSAttribute.standard_compatible)
+            except Exception as exc:  # noqa: BLE001
+                obs["handler_mode"] = f"error:{type(exc).__name__}"
+            await client.send_packet(req)
+            await client.aclose()
+
+    class _Up:
+        def __init__(self):
+            self.ev = asyncio.Event()
+
+        def set(self):
+            self.ev.set()
+
+    async def main(loop):
+        lg = logging.getLogger("verif.c09")
+        lg.propagate = False
+        lg.handlers[:] = [logging.NullHandler()]
+        kw = {} if mode == "default" else {"ssl_standard_compatible": mode == "True"}
+        server = AsyncTCPNetworkServer(netutil.rand_loopback(), 0, StreamProtocol(StringLineSerializer()), H(), AsyncIOBackend(), ssl=tlspeer.server_context(version), ssl_handshake_timeout=10, ssl_shutdown_timeout=2, logger=lg, **kw)
+        up = _Up()
+        st = asyncio.ensure_future(server.serve_forever(is_up_event=up))
+        await asyncio.wait_for(up.ev.wait(), 30)
+        a = server.get_addresses()[0]
+        s = socket.socket()
+        s.bind((netutil.rand_loopback(), 0))
+        s.setblocking(False)
+        await asyncio.get_running_loop().sock_connect(s, (a.host, a.port))
+        peer = tlspeer.AsyncPeer(_SockTransport(s, None), tlspeer.client_context(version), server_side=False)
+        try:
+            await peer.handshake()
+            await peer.write(b"hello\n")
+            obs["peer_end"] = await asyncio.wait_for(peer.read_until_end(), 30)
+            obs["plaintext"] = bytes(peer.plaintext_in)
+        except (ssl.SSLError, OSError, asyncio.TimeoutError) as exc:
+            obs["peer_end"] = f"error:{type(exc).__name__}"
+        s.close()
+        await server.shutdown()
+        await server.server_close()
+        await asyncio.gather(st, return_exceptions=True)
+
+    try:
+        vloop.run(main)
+    except vloop.Quiescent as exc:
+        obs["deadlock"] = str(exc)
+    return obs
+
+
 # ------------------------------------------------------------------------------------------ oracle
 
 
@@ -662,6 +727,9 @@ def plan(tier: str, seed: int) -> list[dict]:
         for std in (True, False):
             shards.append({"seed": seed * 1000 + i, "kind": "async-lowlevel-server", "version": version, "std": std, "lib_server": True, "tier": tier})
             i += 1
+    for version in ("1.2", "1.3"):
+        shards.append({"seed": seed * 1000 + i, "kind": "highlevel-server", "version": version, "std": True, "lib_server": True, "tier": tier})
+        i += 1
     for kind in ("sync-tcp-client", "async-tcp-client"):
         for version in ("1.2", "1.3"):
             for std in (True, False):
@@ -687,6 +755,25 @@ def _run(kind, version, std, lib_server, reader, k, order="peer-first"):
 
 def run_shard(params: dict, ctx) -> None:
     global _DEFAULT_CTX
+    if params["kind"] == "highlevel-server":
+        for mode in ("default", "True", "False"):
+            ctx.count("highlevel_server_close_checked")
+            o = highlevel_server_close(params["version"], mode)
+            ctx.case(True, "highlevel-server", params["version"], mode)
+            why = None
+            if o.get("deadlock"):
+                why = f"deadlock: {o['deadlock']}"
+            elif o.get("plaintext") != b"hello\n":
+                why = f"the peer read {o.get('plaintext')!r} before the end ({o.get('peer_end')})"
+            elif mode in ("default", "True") and o.get("peer_end") != "clean":
+                why = f"the handler closed the client (ssl_standard_compatible {'left unset' if mode == 'default' else '= True'}) and the peer's read ended '{o.get('peer_end')}': no close notification was sent"
+            elif mode in ("default", "True") and o.get("handler_mode") is not True:
+                why = f"TLSAttribute.standard_compatible is {o.get('handler_mode')!r} in the handler although ssl_standard_compatible was {'left unset (default: True)' if mode == 'default' else 'True'}"
+            elif mode == "False" and o.get("peer_end") not in ("clean", "ragged"):
+                why = f"non standard-compatible server: the peer's read ended '{o.get('peer_end')}'"
+            if why:
+                ctx.violation(f"no-close-notify:highlevel-server:{mode}", f"[AsyncTCPNetworkServer TLS{params['version']}] {why}", {**params, "mode": mode})
+        return
     _DEFAULT_CTX = bool(params.get("default_ctx"))
     if _DEFAULT_CTX:
         ctx.count("client_builds_default_context")
